@@ -39,6 +39,8 @@ def shapes(tier, seed):
         out.append(('pipeline', carrier, 'signature', 'Trace'))
     out.append(('fmt', 'keys'))
     out.append(('fmt', 'structs'))
+    out.append(('fmt', 'toolong', 41))
+    out.append(('fmt', 'toolong', 64))
     return out
 
 
@@ -156,11 +158,39 @@ def run_shape(prog, shape, tier, seed, res):
                 from mirse.model_misc import hex_encode_elems
                 observables.append(('__expected_signature', hex_encode_elems(hm[-1].out)))
             return observables, ('ok' if o[0] == 'ok' else o[1]), [l for l, _ in m.log_records]
-        # ---- Debug / Display of public values built from a symbolic secret
+        if shape[1] == 'toolong':
+            # the error value that from_str really returns for a secret that does not fit
+            n_long = shape[2]
+            m.log_max_level = 4
+            m.x_generics = {'M': Int('usize', 44)}
+            long_secret = [Int('u8', ctx.fresh_bv('SECRET_long%d_%d' % (n_long, i), 8)) for i in range(n_long)]
+            for i_, e in enumerate(long_secret):
+                if 0 < i_ < n_long - 1:
+                    ctx.assume(z3.And(z3.UGE(e.v, 0x21), z3.ULT(e.v, 0x7F), e.v != 0x22, e.v != 0x5C, e.v != 0x27))
+                else:
+                    # first / last byte may also be a blank, a tab or a line feed (a key read from a file with its trailing newline)
+                    ctx.assume(z3.Or(z3.And(z3.UGE(e.v, 0x20), z3.ULT(e.v, 0x7F), e.v != 0x22, e.v != 0x5C, e.v != 0x27), e.v == 0x09, e.v == 0x0A))
+            rerr = m.call('<KSecretKey<M> as FromStr>::from_str', [mk_str(long_secret)], None)
+            if rerr.variant != 'Err':
+                raise Unsupported('from_str accepted a %d-byte secret for M=44' % n_long)
+            for how, lab in (('debug', 'Debug'), ('debug#', 'Debug#'), ('display', 'Display'), ('display#', 'Display#')):
+                observables.append(('from_str(%d bytes) error %s' % (n_long, lab), render(m, rerr.fields[0], how)))
+            for lvl, text in m.log_records:
+                if lvl != 'Trace':
+                    observables.append(('log %s (key construction)' % lvl, text))
+            return observables, 'fmt', []
+        # ---- Debug / Display of public values built from a symbolic secret (logger at Debug: records emitted on the way are observables too)
+        m.log_max_level = 4
         m.x_generics = {'M': Int('usize', 44)}
         secret = [Int('u8', ctx.fresh_bv('SECRET_raw%d' % i, 8)) for i in range(40)]
-        for e in secret:
+        for i, e in enumerate(secret):
             ctx.assume(z3.ULT(e.v, 0x80))
+            if 0 < i < len(secret) - 1:
+                # inner bytes: printable ASCII other than blank, quote and backslash (bounds the paths of trim-like scans and of Debug
+                # escaping, which fork per byte class); the first and the last byte may also be a blank, a tab or a line feed
+                ctx.assume(z3.And(z3.UGE(e.v, 0x21), z3.ULT(e.v, 0x7F), e.v != 0x22, e.v != 0x5C))
+            else:
+                ctx.assume(z3.Or(z3.And(z3.UGE(e.v, 0x20), z3.ULT(e.v, 0x7F), e.v != 0x22, e.v != 0x5C), e.v == 0x09, e.v == 0x0A))
         ks = m.call('<KSecretKey<M> as FromStr>::from_str', [mk_str(secret)], None).fields[0]
         date = C.NaiveDate(2015, 8, 30)
         kd = m.call('KSecretKey::to_kdate', [Ptr(Cell(ks), ()), date], None)
@@ -173,16 +203,6 @@ def run_shape(prog, shape, tier, seed, res):
                 observables.append((nm + ' Debug#', render(m, v, 'debug#')))
                 observables.append((nm + ' Display', render(m, v, 'display')))
                 observables.append((nm + ' Display#', render(m, v, 'display#')))
-            # the error value that from_str really returns for a secret that does not fit (41 and 64 symbolic bytes)
-            for n_long in (41, 64):
-                long_secret = [Int('u8', ctx.fresh_bv('SECRET_long%d_%d' % (n_long, i), 8)) for i in range(n_long)]
-                for e in long_secret:
-                    ctx.assume(z3.And(z3.UGE(e.v, 0x21), z3.ULT(e.v, 0x7F), e.v != 0x22, e.v != 0x5C, e.v != 0x27))
-                rerr = m.call('<KSecretKey<M> as FromStr>::from_str', [mk_str(long_secret)], None)
-                if rerr.variant != 'Err':
-                    raise Unsupported('from_str accepted a %d-byte secret for M=44' % n_long)
-                for how, lab in (('debug', 'Debug'), ('debug#', 'Debug#'), ('display', 'Display'), ('display#', 'Display#')):
-                    observables.append(('from_str(%d bytes) error %s' % (n_long, lab), render(m, rerr.fields[0], how)))
         else:
             resp = Adt('GetSigningKeyResponse', None, [PRINCIPAL, SESSION, kg], ['principal', 'session_data', 'signing_key'])
             observables.append(('GetSigningKeyResponse Debug', render(m, resp, 'debug')))
@@ -213,6 +233,9 @@ def run_shape(prog, shape, tier, seed, res):
             m.hash_order = 'two'
             observables.append(('CanonicalRequest Debug', render(m, cr.fields[0].fields[0], 'debug')))
             observables.append(('CanonicalRequest Debug#', render(m, cr.fields[0].fields[0], 'debug#')))
+        for lvl, text in m.log_records:
+            if lvl != 'Trace':
+                observables.append(('log %s (key construction / derivation)' % lvl, text))
         return observables, 'fmt', []
 
     def on_path(pr):
@@ -377,14 +400,17 @@ def replay_finding(rp, f):
         except Exception:
             pass
         return bool(hits or (sig_leak and lvl_ok)), {'key_material_found': hits, 'expected_signature_found': sig_leak[:1]}
-    r = rp.ask({'op': 'fmt', 'secret': AWS_SECRET, 'date': [2015, 8, 30], 'region': 'r', 'service': 's'})
-    kd = h(b'AWS4' + AWS_SECRET.encode(), b'20150830')
-    kr = h(kd, b'r')
-    ks = h(kr, b's')
-    kg = h(ks, b'aws4_request')
-    secrets = [AWS_SECRET.encode()] + [x for k in (kd, kr, ks, kg) for x in forms_of(k)]
-    blob = json.dumps(r).encode()
-    hits = [s.decode('latin-1')[:20] for s in secrets if s in blob]
+    hits = []
+    # the example secret, and the same secret as read from a file with a blank in front / a line feed at the end (39 + 1 bytes)
+    for sec in (AWS_SECRET, AWS_SECRET[:-1] + '\n', ' ' + AWS_SECRET[1:]):
+        r = rp.ask({'op': 'fmt', 'secret': sec, 'date': [2015, 8, 30], 'region': 'r', 'service': 's', 'log_level': 'debug'})
+        kd = h(b'AWS4' + sec.encode(), b'20150830')
+        kr = h(kd, b'r')
+        ks = h(kr, b's')
+        kg = h(ks, b'aws4_request')
+        secrets = [sec.encode(), sec.strip().encode(), json.dumps(sec)[1:-1].encode()] + [x for k in (kd, kr, ks, kg) for x in forms_of(k)]
+        blob = json.dumps(r).encode() + b'\n' + '\n'.join(' '.join(map(str, rec)) for rec in r.get('logs', [])).encode('latin-1', 'replace')
+        hits += [s.decode('latin-1')[:20] for s in secrets if len(s) >= 16 and s in blob]
     return bool(hits), {'key_material_found': hits}
 
 
